@@ -20,6 +20,15 @@ func (b Bundle) Fragment(mtu int) (bs []Bundle, err error) {
 		return
 	}
 
+	// A Bundle which already fits into the MTU does not need to be fragmented and is returned as itself.
+	var bundleBuff bytes.Buffer
+	if err = b.MarshalCbor(&bundleBuff); err != nil {
+		return
+	} else if bundleBuff.Len() <= mtu {
+		bs = []Bundle{b}
+		return
+	}
+
 	var (
 		cborOverhead     = 2
 		extFirstOverhead int
@@ -90,7 +99,10 @@ func (b Bundle) Fragment(mtu int) (bs []Bundle, err error) {
 		i += fragPayloadBlockLen
 	}
 
-	if len(bs) == 1 {
+	if len(bs) == 0 {
+		// Without any payload, there is nothing to be distributed over multiple fragments.
+		err = fmt.Errorf("bundle with an empty payload exceeds MTU and cannot be fragmented")
+	} else if len(bs) == 1 {
 		bs = []Bundle{b}
 	}
 
